@@ -537,7 +537,38 @@ func storeSideC10(p *core.Program, r *core.Report) {
 		nPartApp++
 		// guarded by knownFragment == false where knownFragment is true only under equality of both coordinates
 		okDedup := false
+		threeEqual := func(conds []core.Cond) bool {
+			seen := map[string]bool{}
+			for _, pc := range conds {
+				if bo, ok := pc.V.(*ssa.BinOp); ok && bo.Op == token.EQL && pc.True {
+					for _, f := range []string{"FragmentOffset", "TotalDataLength", "PayloadLength"} {
+						if pathEndsWith(bo.X, f) && pathEndsWith(bo.Y, f) {
+							seen[f] = true
+						}
+					}
+				}
+			}
+			return seen["FragmentOffset"] && seen["TotalDataLength"] && seen["PayloadLength"]
+		}
 		for _, cd := range core.DominatingConds(c.Block()) {
+			// the duplicate test extracted into a boolean helper: every `true` result lies under the three equalities
+			if call, isCall := cd.V.(*ssa.Call); isCall && !cd.True {
+				if f := call.Common().StaticCallee(); f != nil && core.IsRepo(f) && f.Blocks != nil {
+					all, n := true, 0
+					for _, rv := range core.ReturnValues(f, 0) {
+						if core.IsBoolConst(rv.V, false) {
+							continue
+						}
+						n++
+						if !core.IsBoolConst(rv.V, true) || !threeEqual(core.DominatingConds(rv.At.Block())) {
+							all = false
+						}
+					}
+					if all && n > 0 {
+						okDedup = true
+					}
+				}
+			}
 			phi, ok := cd.V.(*ssa.Phi)
 			if !ok || cd.True {
 				continue
